@@ -2,4 +2,4 @@
 # run the thorough tier of every claimed check on the unchanged tree (no evidence written); summary lines only
 cd "$(dirname "$0")/.."
 ids=${*:-$(python3 -c "import json;print(' '.join(c['property_id'] for c in json.load(open('MANIFEST.json'))['checks']))")}
-for p in $ids; do t0=$(date +%s); bin/check $p --tier thorough --no-evidence 2>&1 | grep -E "VIOLATION|KNOWN|BROKEN|thorough:|tag=|NOTE"; echo "  ($p took $(( $(date +%s) - t0 )) s, exit status in the line above)"; done
+for p in $ids; do t0=$(date +%s); bin/check $p --tier thorough --no-evidence ${SEED:+--seed $SEED} 2>&1 | grep -E "VIOLATION|KNOWN|BROKEN|thorough:|tag=|NOTE"; echo "  ($p took $(( $(date +%s) - t0 )) s, exit status in the line above)"; done
